@@ -1,4 +1,5 @@
 import MirProofs.Lemmas.SeparationLS
+import MirProofs.Lemmas.SeparationLSAny
 import MirProofs.Props.C19
 /-!
   C19 (exact least-squares projection) — DESIGN §5 C19, deepening.
@@ -17,6 +18,11 @@ import MirProofs.Props.C19
   The only side conditions left are the well-formedness of the input (`WF`: `flen ≥ 1`, references as long as
   the estimate, valid source index — the domain of the driver op) and, where a value is asserted, that the Gram
   matrices are non-singular (`solve?` succeeded).
+    * the singular branch (`except LinAlgError: lstsq`, model `solveAny?` / `projectAny`) needs NO such condition:
+      normal equations are always consistent and elimination with free unknowns set to 0 solves every consistent
+      system, so `projectAny` is total, satisfies the normal equations and minimises the squared error
+      (`solveAny_isSome_iff`, `normal_equations_consistent`, `solveAny_normal_equations`, `projectAny_total`,
+      `projectAny_least_squares`).
 -/
 namespace Mir.C19.LS
 open Mir Mir.Separation Mir.SeparationLS
@@ -391,6 +397,92 @@ theorem projectAny_normal_equations (refs : List (List Rat)) (est : List Rat) (f
 example : projectAny [[1, 2, 0, -1], [1, 2, 0, -1]] [2, 1, 0, 5] 2 = some [-1/4, -1/4, 1/2, 1/4, -1/4] ∧
     project [[1, 2, 0, -1]] [2, 1, 0, 5] 2 = some [-1/4, -1/4, 1/2, 1/4, -1/4] := by
   constructor <;> decide +kernel
+
+/-- COMPLETENESS of `solveAny?`: it succeeds exactly on the CONSISTENT square systems (those that have a solution),
+    singular or not. -/
+theorem solveAny_isSome_iff (A : List (List Rat)) (b : List Rat) (hb : b.length = A.length) :
+    (solveAny? A b).isSome ↔ ∃ y : List Rat, y.length = A.length ∧ mulVec A y = b := by
+  unfold solveAny?
+  rw [solveAnyRows_isSome_iff]
+  constructor
+  · rintro ⟨y, hy, hsat⟩
+    refine ⟨y, hy, ?_⟩
+    apply List.ext_getElem
+    · simp [mulVec, hb]
+    · intro i hi1 hi2
+      simp only [mulVec, List.length_map] at hi1
+      have := hsat (A[i], b[i]) (mem_zip_iff.2 ⟨i, hi1, hi2, rfl⟩)
+      simpa [mulVec] using this
+  · rintro ⟨y, hy, hmul⟩
+    refine ⟨y, hy, ?_⟩
+    intro r hr
+    obtain ⟨i, hi1, hi2, rfl⟩ := mem_zip_iff.1 hr
+    have : (mulVec A y)[i]'(by simp [mulVec, hi1]) = b[i] := by simp [hmul]
+    simpa [mulVec] using this
+
+/-- CONSISTENCY OF NORMAL EQUATIONS: for every finite family `B` of signals (linearly dependent or not) and every
+    target `se`, the system `G y = D` with `G = gram B` (`G[k][l] = ⟨B_k, B_l⟩`) and `D = dots B se`
+    (`D[k] = ⟨B_k, se⟩`) has a solution — the orthogonal projection on the span of `B` exists. -/
+theorem normal_equations_consistent (B : List (List Rat)) (se : List Rat) :
+    ∃ y : List Rat, y.length = B.length ∧ mulVec (gram B) y = dots B se := by
+  obtain ⟨y, hy, hsat⟩ := normal_equations_solvable B se
+  refine ⟨y, hy, ?_⟩
+  simp only [mulVec, gram, dots, List.map_map]
+  apply List.map_congr_left
+  intro u hu
+  simp only [Function.comp_def]
+  have := hsat u hu
+  rw [← dot_dots_eq] at this
+  rw [dot_comm se u, ← this]
+
+/-- **`solveAny?` always succeeds on normal equations**: Gaussian elimination with free unknowns set to 0 finds a
+    solution of `G x = D` whenever `G`, `D` are the Gram matrix and right-hand side of a least-squares problem. -/
+theorem solveAny_normal_equations (B : List (List Rat)) (se : List Rat) :
+    ∃ x, solveAny? (gram B) (dots B se) = some x ∧ x.length = B.length ∧ mulVec (gram B) x = dots B se := by
+  obtain ⟨x, hx⟩ := Option.isSome_iff_exists.1 (solveAny_gram_isSome B se)
+  obtain ⟨h1, h2⟩ := solveAny_sound (gram B) (dots B se) x (by simp [gram]) hx
+  exact ⟨x, hx, by simpa [gram] using h1, h2⟩
+
+/-- **The lstsq fall-back of the exact model is TOTAL**, and what it returns satisfies the normal equations: for
+    ALL references (dependent, empty, of any lengths), estimates and filter lengths `_project` through its singular
+    branch returns a signal whose residual is orthogonal to every delayed reference
+    (`projectAny_normal_equations` without its "returned" hypothesis). -/
+theorem projectAny_total (refs : List (List Rat)) (est : List Rat) (flen : Nat) :
+    ∃ p, projectAny refs est flen = some p ∧
+      ∀ r ∈ refs, ∀ d < flen,
+        dot (delayed ((refs.headD []).length + flen - 1) d r) (vsub (est ++ zeros (flen - 1)) p) = 0 := by
+  obtain ⟨p, hp⟩ := Option.isSome_iff_exists.1
+    (projectOnAny_isSome (basis ((refs.headD []).length + flen - 1) flen refs) (est ++ zeros (flen - 1)))
+  have hp' : projectAny refs est flen = some p := hp
+  exact ⟨p, hp', projectAny_normal_equations refs est flen p hp'⟩
+
+/-- LEAST SQUARES through the singular branch: no combination of the delayed references is closer to the
+    (zero-padded) estimate than what `projectAny` returns. -/
+theorem projectAny_least_squares (refs : List (List Rat)) (est : List Rat) (flen : Nat) (p : List Rat)
+    (h : projectAny refs est flen = some p) (c : List Rat) :
+    let se := est ++ zeros (flen - 1)
+    let q := lincomb c (basis ((refs.headD []).length + flen - 1) flen refs)
+    dot (vsub se p) (vsub se p) ≤ dot (vsub se q) (vsub se q) :=
+  projectOnAny_least_squares _ _ p h c
+
+/-- where the plain solver succeeds (independent delayed references) the fall-back returns the same coefficients,
+    hence the same signal up to the zero padding of `projectOnAny` -/
+theorem projectAny_extends_project (refs : List (List Rat)) (est : List Rat) (flen : Nat) (p : List Rat)
+    (h : project refs est flen = some p) :
+    projectAny refs est flen = some (padd p (zeros (est ++ zeros (flen - 1)).length)) := by
+  simp only [project, projectOn] at h
+  obtain ⟨x, hx, rfl⟩ := Option.map_eq_some_iff.1 h
+  simp only [projectAny, projectOnAny, solveAny_extends_solve _ _ _ hx, Option.map_some]
+
+/-- the multichannel fall-back (`_project_images` through `lstsq`) is total as well -/
+theorem projectImagesAny_total (rows es : List (List Rat)) (flen : Nat) :
+    (projectImagesAny rows es flen).isSome :=
+  mapM_isSome_of_forall _ es (fun _ _ => projectOnAny_isSome _ _)
+
+example : solveAny? [[1, 2], [2, 4]] [1, 2] = some [1, 0] ∧ solveAny? [[1, 2], [2, 4]] [1, 3] = none ∧
+    gram [[1, 2], [2, 4]] = [[5, 10], [10, 20]] ∧ dots [[1, 2], [2, 4]] [1, 0] = [1, 2] ∧
+    solveAny? (gram [[1, 2], [2, 4]]) (dots [[1, 2], [2, 4]] [1, 0]) = some [1/5, 0] := by
+  refine ⟨?_, ?_, ?_, ?_, ?_⟩ <;> decide +kernel
 
 /-! ## 6. images: `_project_images` is `_project` channel by channel -/
 
